@@ -25,7 +25,7 @@ HDR_FIELDS = [
 FRAME_KINDS = ["data", "connect", "connect_v2", "subscribe", "unsubscribe", "pause", "resume",
                "disconnect", "set_name", "module_ready", "ack", "failed_message", "timing", "log"]
 
-STAGES = ["fresh", "connected", "subscribed"]
+STAGES = ["fresh", "connected", "subscribed", "early_sub"]
 
 NAMES = [b"", b"plain", b"\xff" * 32, b"\xff" * 31, b"\x80abc", b"caf\xc3\xa9", b"x" * 32, b"\x00" * 32,
          b"message_manager", b"a\x00\xff\xfe", bytes(range(1, 33))]
@@ -111,7 +111,16 @@ class HostileRun:
         a.open()
         self.offenders.append(a)
         stage = stage or ch.choose("host.stage", STAGES)
-        if stage != "fresh":
+        if stage == "early_sub":
+            # subscribes before (or without ever) completing a handshake
+            for _ in range(1 + ch.pick("host.nearly", 2)):
+                a.subscribe(ch.choose("host.earlyt", [C.ALL_MESSAGE_TYPES, C.MT_RTMA_LOG_ERROR, C.MT_RTMA_LOG_INFO, 1000,
+                                                       C.MT_CLIENT_CLOSED, C.MT_FAILED_MESSAGE, C.MT_CLIENT_INFO]))
+            if ch.flag("host.early_then_connect", 2, 3):
+                rid = ch.choose("host.early_rid", [0, 91, 92, 90, 25, 101, -1])
+                a.handshake(ch.choose("host.proto", ["v2v1", "v1", "v2"]), req_id=rid, allow_multiple=ch.flag("host.em", 1, 2),
+                            name=ch.choose("host.ename", [b"", b"monitor", b"bystander_s"]))
+        elif stage != "fresh":
             rid = ch.weighted("host.rid", [(3, 0), (2, 20 + ch.pick("host.ridn", 10))])
             a.handshake(ch.choose("host.proto", ["v2v1", "v1", "v2"]), req_id=rid,
                         logger=ch.flag("host.logger", 1, 6), allow_multiple=True)
